@@ -366,6 +366,17 @@ class Ranges:
             r0 = ty_range(self.B.local_ty(c[1]))
             if r0:
                 lo, hi = max(lo, r0[0]), min(hi, r0[1])
+            if k == 'local':
+                # `let x = if c { 0 } else { 4 }`: every definition is a constant
+                vals = []
+                for d in self.B.defs().get(c[1], []):
+                    if d[0] == 's' and d[3]['rv']['k'] == 'use' and d[3]['rv']['op']['k'] == 'c' and 'v' in d[3]['rv']['op']:
+                        vals.append(d[3]['rv']['op']['v'])
+                    else:
+                        vals = None
+                        break
+                if vals:
+                    lo, hi = max(lo, min(vals)), min(hi, max(vals))
         elif k == 'place':
             r0 = ty_range(getattr(self.B, '_cty', {}).get(c, ''))
             if r0:
